@@ -115,7 +115,11 @@ func planarGrid(c *Ctx, add func(name string, g gJ, vars []invVar, known string)
 				}
 			}
 			vars := []invVar{{Pi: identity(b.N), Rep: "dense"}, {Pi: identity(b.N), Rep: "sparse"}, {Pi: identity(b.N), Rep: "view"}}
-			for i := 0; i < 4; i++ {
+			nrel := 4
+			if b.Kind == "planar" {
+				nrel = 10 // a wrongly rejected planar graph usually depends on the labelling
+			}
+			for i := 0; i < nrel; i++ {
 				vars = append(vars, invVar{Pi: r.Perm(b.N), Rep: []string{"dense", "sparse"}[i%2]})
 			}
 			collect(name, gJ{N: b.N, E: b.E}, vars, b.Kind)
